@@ -135,8 +135,14 @@ def production_rt(seed, n, api, prefix, wrong_every=0, passwords=None):
             if passwords:
                 pw = bytes.fromhex(e["password_hex"])
                 # a near miss: one bit flipped, or a trailing NUL, or truncated
-                alt = [bytes([pw[0] ^ 1]) + pw[1:] if pw else b"\x00", pw + b"\x00", pw[:-1] if pw else b"x"][i % 3]
+                alt = [bytes([pw[0] ^ 1]) + pw[1:] if pw else b"\x01", pw + b"\x00", pw[:-1] if pw else b"x",
+                       pw + b"\x01"][(i // wrong_every) % 4]
                 d["wrong_password_hex"] = alt.hex()
+                from checks_keyring import hmac_equivalent
+                if hmac_equivalent(pw.hex(), alt.hex()):
+                    # RFC 2104: the same HMAC key, hence the same PBKDF2/scrypt password (known finding)
+                    sid = sid + ".hmaceq"
+                    e["id"] = sid
         out.append({"op": "rt", "id": sid, "enc": e, "dec": d})
     return out
 
